@@ -10,11 +10,38 @@ pub open spec fn sub_post(a: P4, b: P4, r: P4) -> bool { on_curve(a) && on_curve
 #[verifier::external_body]
 pub struct EdwardsProjective { _p: u8 }
 pub uninterp spec fn repr(p: EdwardsProjective) -> P4;
+#[derive(Clone, Copy)]
 pub struct Element { pub inner: EdwardsProjective }
+impl Element {
+    // native encoder (its contract is C01/C03; the soundness reading never looks at the value a prover computes)
+    #[verifier::external_body]
+    pub fn vartime_compress_to_field(&self) -> (r: Fq) { unimplemented!() }
+}
+// ark_r1cs_std::alloc::AllocationMode, ark_relations::r1cs::Namespace, core::borrow::Borrow
+pub enum AllocationMode { Constant, Input, Witness }
+#[verifier::external_body]
+#[verifier::reject_recursive_types(F)]
+pub struct Namespace<F> { _p: core::marker::PhantomData<F> }
+impl<F> Namespace<F> {
+    #[verifier::external_body]
+    pub fn cs(&self) -> (r: ConstraintSystemRef<F>) { unimplemented!() }
+}
+pub trait Borrow<B> { spec fn borrow_spec(&self) -> B; fn borrow(&self) -> (r: &B) ensures *r == self.borrow_spec(); }
+impl Borrow<Element> for Element { open spec fn borrow_spec(&self) -> Element { *self } fn borrow(&self) -> (r: &Element) { self } }
 impl Clone for EdwardsProjective { #[verifier::external_body] fn clone(&self) -> (r: EdwardsProjective) ensures r == *self { unimplemented!() } }
 impl Copy for EdwardsProjective {}
 @GROUP_OPS@
 impl Decaf377EdwardsVar {
+    // AffineVar::new_variable_omit_prime_order_check: allocates x, y in the given mode and (unless Constant) enforces the
+    // curve equation a x^2 + y^2 = 1 + d x^2 y^2 on them; no subgroup / coset check (that is the caller's business)
+    #[verifier::external_body]
+    pub fn new_variable_omit_prime_order_check<T: FnOnce() -> Result<EdwardsProjective, SynthesisError>>(cs: ConstraintSystemRef<Fq>, f: T, mode: AllocationMode)
+        -> (r: Result<Decaf377EdwardsVar, SynthesisError>)
+//#if COMPL
+        requires call_requires(f, ())
+//#endif
+        ensures match r { Ok(v) => !(mode is Constant) ==> on_curve(pva(v)), Err(_) => true }
+    { unimplemented!() }
     #[verifier::external_body]
     pub fn zero() -> (r: Decaf377EdwardsVar) ensures pva(r) == id4() { unimplemented!() }
     // AffineVar::constant(p): the affine coordinates of the native point
